@@ -277,6 +277,11 @@ def run(ch: Checker) -> None:
     ch.rule('C05.15', 'configuration is shared by every connection of a worker: per-connection code never stores into or mutates <...>.flags.<name>, directly or through a local that names the same object (expected 0 sites)', 1)
     from .common import shared_config_mutation_check
     shared_config_mutation_check(ch, 'C05.15')
+    ch.rule('C05.16', 'a lock taken with a bare acquire() is released on every way out of the function, exceptional ones included (expected: no bare acquire at all, locks are held through `with`)', 1)
+    ch.rule('C05.17', 'queued output is shared between connections (module-level canned replies): no connection class releases a queued memoryview (expected 0 sites)', 1)
+    from .common import lock_release_check, no_buffer_release_check
+    lock_release_check(ch, 'C05.16')
+    no_buffer_release_check(ch, 'C05.17')
     ch.import_rules('C16', {'C16.3': 'C05.13'}, 'the web server feeds frame.parse() its own remainder until it is empty: a parse that can return its input unconsumed spins the worker forever')
 
     # ---- C05.9 (shared)
